@@ -6,7 +6,7 @@ V = os.path.dirname(os.path.dirname(os.path.abspath(__file__)))
 
 def table():
     rows = []
-    for d in sorted(glob.glob(os.path.join(V, "seeded", "*-m*"))):
+    for d in sorted(glob.glob(os.path.join(V, "seeded", "*-*m[0-9]"))):
         m = json.load(open(os.path.join(d, "meta.json")))
         name = os.path.basename(d)
         checks = ", ".join("%s: %d" % (k, v["violations"]) for k, v in m.get("checks", {}).items())
